@@ -86,6 +86,19 @@ pub fn compare_db_and_transaction_records(
     )
 }
 
+/// `StorageManager::compare_db_version_and_transaction_record`.
+pub fn compare_db_version_and_transaction_record(
+    state_version: u64,
+    transaction_value: ValueState,
+    flag: ValueStateRetrievalFlag,
+) -> Option<ValueState> {
+    crate::storage::manager::StorageManager::<crate::storage::memory::AsyncInMemoryDatabase>::verif_compare_db_version_and_transaction_record(
+        state_version,
+        transaction_value,
+        flag,
+    )
+}
+
 /// `directory::get_marker_version` (the server side of the lookup marker).
 pub fn directory_get_marker_version(version: u64) -> u64 {
     crate::directory::get_marker_version(version)
